@@ -302,7 +302,11 @@ func (a *List) M__iadd__(other Object) (Object, error) {
 		a.Extend(b.Items)
 		return a, nil
 	}
-	return NotImplemented, nil
+	// += accepts any iterable
+	if err := a.ExtendSequence(other); err != nil {
+		return nil, err
+	}
+	return a, nil
 }
 
 func (l *List) M__mul__(other Object) (Object, error) {
